@@ -67,7 +67,12 @@ func VerifC19_InstantiateLeavesConfig() {
 	mc := cfg.(*moduleConfig)
 	before := verifFull(mc)
 	r := NewRuntimeWithConfig(ctx, NewRuntimeConfigInterpreter())
-	compiled, err := r.CompileModule(ctx, verifTinyWasm)
+	bin := verifTinyWasm
+	if verifrt.Choose("binaryHasName", 2) == 1 {
+		// + custom section "name" with the module name "first"
+		bin = append(append([]byte{}, verifTinyWasm...), 0x00, 0x0d, 0x04, 'n', 'a', 'm', 'e', 0x00, 0x06, 0x05, 'f', 'i', 'r', 's', 't')
+	}
+	compiled, err := r.CompileModule(ctx, bin)
 	verifrt.Assert(err == nil, "tiny module compiles")
 	if err != nil {
 		return
